@@ -228,7 +228,7 @@ def run_prog(prog, cap):
         except Exception as e:
             viol.append(("parser-raised-on-merge", {"error": repr(e)[:200]}))
             break
-        tasks.sort(key=lambda t: t.root().task_uuid)
+        tasks = progs.order_tasks(tasks, allmsgs)
         got = [progs.from_written(t.root()) for t in tasks]
         if len(got) != len(ref):
             viol.append(("merge-task-count", {"want": len(ref), "got": len(got)}))
